@@ -107,7 +107,8 @@ def print_chars(codes, cur=3, sink=1):
 
 
 HOSTILE = [0x7b, 0x7d, 0x22, 0x5c, 0x27, 0x25, 0x00, 0x0a, 0x0d, 0x7f, 0x80, 0x7ff, 0x800, 0xd7ff, 0xe000,
-           0xffff, 0x10000, 0x10ffff, 0x41, 0x20, 0x7b, 0x7d, 0xac00, 0x1f496, 0x5b, 0x3e]
+           0xffff, 0x10000, 0x10ffff, 0x41, 0x20, 0x7b, 0x7d, 0xac00, 0x1f496, 0x5b, 0x3e,
+           0x09, 0x1b, 0x2028, 0xfeff, 0x301, 0xad, 0x200d, 0xe0001, 0x24, 0x60, 0x23]
 UNENCODABLE = [0xd800, 0xdfff, 0x110000, 0x200000]
 
 
@@ -141,6 +142,27 @@ def tmpl_countdown(rng, iters=None, allow_input=False):
         prog += [(1, 1, 1, None)]
     elif tail < 0.7:
         prog += stack_neutral_body(rng) + [(1, 1, rng.choice([1, 2]), None)]
+    return prog
+
+
+def tmpl_nested(rng):
+    """Two nested count-down loops (outer label (3,💕), inner label (2,💗)) whose total number of jumps
+    straddles the optimiser's 100-jump budget although neither loop alone does."""
+    n1, n2 = rng.choice([(10, 9), (9, 10), (11, 9), (5, 19), (20, 4), (4, 24), (7, 14), (3, 3), (2, 60), (12, 8)])
+    n = 3 * n1 + rng.choice([0, 1, 2])
+    m = 2 * n2 + rng.choice([0, 1])
+    ps = rng.choice([1, 2, 4])
+    prog = push_value(n)
+    prog += [(0, 1, 3, 4), (3, 1, 5, None), (1, 2, 3, None)]                       # outer: label, -3
+    prog += push_value(m)
+    prog += [(0, 1, 2, 6), (3, 1, ps, None), (1, 2, 3, None)]                      # inner: label, -2 (prints "2" when ps is 1/2)
+    prog += stack_neutral_body(rng) if rng.random() < 0.5 else []
+    prog += [(5, 1, 3, None), (0, 2, 1, ('?', None, ('?', None, 6)))]              # dup inner counter, test it against 2
+    prog += [(1, 1, 5, None)]                                                      # drop the spent inner counter
+    prog += stack_neutral_body(rng) if rng.random() < 0.3 else []
+    prog += [(5, 1, 3, ('?', None, 4))]                                            # outer test
+    if rng.random() < 0.5:
+        prog += [(1, 1, 1, None)]
     return prog
 
 
@@ -652,6 +674,7 @@ def gen_stdin(rng):
 # ------------------------------------------------------------------------------------------- mixer
 TEMPLATES = {
     'countdown': lambda rng, ai: tmpl_countdown(rng),
+    'nested': lambda rng, ai: tmpl_nested(rng),
     'equal_loop': lambda rng, ai: tmpl_equal_loop(rng),
     'dispatch': lambda rng, ai: tmpl_dispatch(rng, ai),
     'heart_return': lambda rng, ai: tmpl_heart_return(rng),
